@@ -304,6 +304,9 @@ class Program:
         self.by_qname = {}
         for b in self.bodies.values():
             self.by_qname.setdefault(b.qname, []).append(b)
+        # functions outside the reference inventory (helpers extracted by a later refactoring) are transparent
+        import inline
+        self.inlined = inline.apply(self, VERIF) if os.environ.get("SDLINT_NO_INLINE") != "1" else []
 
     def _qname(self, b):
         """line-number-free, impl-index-free display name used in reports and keys"""
